@@ -79,8 +79,7 @@ LNext == \/ (phase = "idle" /\ Cardinality(memo) <= NF(d) /\ \E o \in AllOutputs
          \/ ClearCache
          \/ LEnd
          \/ (nh + 1 < MaxHandles /\ LDropKeep)
-         \/ CloseBlock
-         \/ BlockLeft(FALSE)      \* (leaving the with statement: CloseBlock, or nothing at all - whether it is left normally or by an exception)
+         \/ CloseBlock            \* (BlockLeft - leaving the with statement, normally or by an exception - is this step or no step at all)
 LBSpec == LUInit /\ [][LNext]_allvars
 (* the eager twin alone (its fault plan is independent of the lazy pipeline's: exploring the two in one state space would *)
 (* only multiply them)                                                                                                   *)
